@@ -15,6 +15,8 @@ def fsum(x):
 
 
 def inc(x):
+    if isinstance(x, dict):
+        return {k: inc(v) for k, v in x.items()}
     if isinstance(x, tuple):
         return tuple(inc(y) for y in x)
     if isinstance(x, list):
@@ -63,10 +65,19 @@ def ident(x):
     return x
 
 
-MAPS = {'fsum': fsum, 'inc': inc, 'dbl': dbl, 'half': half, 'mod3': mod3, 'neg': neg,
+def addk(x, k=0, m=1):
+    """map with positional and keyword arguments"""
+    return fsum(x) * m + k
+
+
+def asdict(x):
+    return {'a': fsum(x) % 3, 'b': x}
+
+
+MAPS = {'addk': addk, 'asdict': asdict, 'fsum': fsum, 'inc': inc, 'dbl': dbl, 'half': half, 'mod3': mod3, 'neg': neg,
         'wrap': wrap, 'pair': pair, 'triple': triple, 'rep': rep, 'size': size, 'ident': ident}
 # output kind of each map function: 'same' keeps the input kind
-MAP_KIND = {'fsum': 'int', 'inc': 'same', 'dbl': 'int', 'half': 'int', 'mod3': 'int', 'neg': 'int',
+MAP_KIND = {'addk': 'int', 'asdict': 'dict', 'fsum': 'int', 'inc': 'same', 'dbl': 'int', 'half': 'int', 'mod3': 'int', 'neg': 'int',
             'wrap': ('tup', 1), 'pair': ('tup', 2), 'triple': ('tup', 3), 'rep': ('tup', None),
             'size': 'int', 'ident': 'same'}
 
@@ -91,7 +102,12 @@ def small(x):
     return abs(fsum(x)) < 4
 
 
-PREDS = {'even': even, 'odd': odd, 'not3': not3, 'pos': pos, 'small': small, 'none': None}
+def gtk(x, k=0, strict=True):
+    """filter with positional and keyword arguments"""
+    return fsum(x) > k if strict else fsum(x) >= k
+
+
+PREDS = {'gtk': gtk, 'even': even, 'odd': odd, 'not3': not3, 'pos': pos, 'small': small, 'none': None}
 
 
 def add(s, x):
